@@ -7,7 +7,7 @@ from ..core import rule
 from ..index import AnalysisError, dotted, src, walk_no_nested, names_in
 from ..cfg import CFG, UNK
 from ..domains import check_pred, eval_pred, cmp_atoms, NotComparisonOnly
-from ..util import node_calls, own_expr, truthiness_uses, explore, outcomes_by_case
+from ..util import node_calls, own_expr, truthiness_uses, explore, outcomes_by_case, enclosing_loops, loop_targets
 from .slots import COUNTTABLE, BASEDEMUX
 
 RS = 'read_should_be_counted'
@@ -329,9 +329,19 @@ def r5(ctx):
     if okall:
         ctx.emit('C11-R5', True, COUNTTABLE, g, f"all {len(incs)} 'increment' entries are the computed weight (or the tag value under byValue)", key='increment-provenance')
     augs = [a for a in walk_no_nested(g) if isinstance(a, ast.AugAssign) and src(a.target).startswith('countTable[')]
-    ok = len(augs) >= 3 and all(src(a.value) == 'countToAdd' and isinstance(a.op, ast.Add) for a in augs)
-    re_ = [s for s in walk_no_nested(g) if isinstance(s, ast.Assign) and src(s.targets[0]) == 'countToAdd' and "['increment']" in src(s.value)]
-    ctx.emit('C11-R5', ok and len(re_) >= 3, COUNTTABLE, g, f'{len(augs)} table updates add dtable["increment"]', key='table-update')
+    # every table update adds the 'increment' entry of the record of the enclosing loop - directly or through a local assigned from it
+    def is_increment_of_loop_record(a):
+        loops_ = enclosing_loops(g, a)
+        recs_ = {n for l_ in loops_ for n in loop_targets(l_.target)}
+        v = a.value
+        if isinstance(v, ast.Name):
+            dd = [s_.value for l_ in loops_ for s_ in walk_no_nested(l_) if isinstance(s_, ast.Assign) and len(s_.targets) == 1 and src(s_.targets[0]) == v.id]
+            if not dd or len({src(d_) for d_ in dd}) != 1:
+                return False
+            v = dd[0]
+        return isinstance(v, ast.Subscript) and isinstance(v.value, ast.Name) and v.value.id in recs_ and isinstance(v.slice, ast.Constant) and v.slice.value == 'increment'
+    ok = len(augs) >= 3 and all(isinstance(a.op, ast.Add) and is_increment_of_loop_record(a) for a in augs)
+    ctx.emit('C11-R5', ok, COUNTTABLE, g, f'{len(augs)} table updates add the "increment" entry of the current record', key='table-update')
     # sample and feature of the same read
     s1 = [s for s in walk_no_nested(g) if isinstance(s, ast.Assign) and src(s.targets[0]) == 'sample' and 'readTag(read, tag)' in src(s.value) and 'sampleTags' in src(s.value)]
     s2 = [s for s in walk_no_nested(g) if isinstance(s, ast.Assign) and src(s.targets[0]) == 'feat' and 'readTag(read, tag)' in src(s.value)]
